@@ -145,8 +145,9 @@ CHECKS = {
         "returns the MTI, every element's value (masked form / prefix where configured) and otherwise only derived entries "
         "(Props/C01.lean C01_roundtrip); the environment hypotheses are discharged for latin_1/cp500/cp037 and the measured "
         "int() classes by decide +kernel on tables regenerated from /repo and the interpreter each run. Messages that "
-        "supply PDSxxxx KEYS (re-packed by the encoder) are covered by C12's packing/recovery theorems and by "
-        "correspondence, not yet by the end-to-end theorem. Tied to /repo by differential execution over every single "
+        "supply PDSxxxx KEYS are covered end to end by C01_roundtrip_pds (every sub-element comes back with its value, "
+        "wherever carrier boundaries fall; carrier hypotheses discharged for the packaged configuration by decide). Tied "
+        "to /repo by differential execution over every single "
         "bit, every pair, boundary/every length, 6 codecs x 2 bitmap forms, packaged + generated configurations.",
         "Trusted: Lean kernel; standard axioms; hand-written model; strptime(strftime d)=d is a hypothesis of WFField.date "
         "(validated differentially); DE43 keys applied by Python's re in the harness.",
@@ -181,8 +182,8 @@ CHECKS = {
         "returns exactly those entries (zero-length and header-like values included) (Props/C12.lean). Tied to /repo by "
         "every pair of value lengths at the 999 boundary (quick 998..1000, thorough 985..1005), 1..6 chunks, unsorted "
         "insertion order, generated carrier sets; carriers read back with a PDS-less configuration.",
-        "Trusted: as C01; sortedness of the key order is established by correspondence (the sort itself is modelled, its "
-        "sortedness lemma is not proved).",
+        "Trusted: as C01. The key order is proved too (C12_ascending_order: the packed list is sorted by key text and is a "
+        "permutation of the message's PDS entries; for 4-digit tags text order = numeric order).",
         "DESIGN.md §8 C12"),
     'C17': (
         "Lean 4 theorems (blocked writer output of any block count is reported blocked, via the C04 block structure; unblocked rule; three invalid classes; validity; encoding family from generated isnumeric tables) + behavioural correspondence on writer output of every block count",
@@ -199,9 +200,9 @@ CHECKS = {
         "Machine-checked proof: decode(A).encode(B) followed by decode(B).encode(A) is the identity on records for codecs whose "
         "tables are mutually inverse (latin_1, cp500, cp037: decide +kernel each run); the parameter tool's output on a "
         "writer-produced file is the writer's file of the re-coded records (count and order preserved, any format pair); the "
-        "IPM tools' output is the writer's file of the re-encoded messages and reads back as their decodings (Props/C19.lean). "
-        "Byte-for-byte reversibility of IPM files rests on these plus correspondence (encode(decode r) = r for "
-        "writer-produced records is exercised, not proved). Tied to /repo by 50/300 files x ordered codec pairs x format "
+        "IPM tools' output is the writer's file of the re-encoded messages and reads back as their decodings; and for a "
+        "configuration without PAN masking (packaged one: decide) decoding a library-written record and encoding it again "
+        "gives the same bytes (C19_reencode_identity) — the step behind byte-for-byte reversibility (Props/C19.lean). Tied to /repo by 50/300 files x ordered codec pairs x format "
         "pairs through mci_ipm_encode, mideu convert (real files), mci_ipm_param_encode, paramconv.",
         "Trusted: as C01/C06; open()/argparse glue exercised, not modelled.",
         "DESIGN.md §8 C19"),
